@@ -316,13 +316,14 @@ def handle (line : String) : String :=
   | [id, ctx, prog] =>
     match (parseSExp ctx).bind toCtx, (parseSExp prog).bind toBlock with
     | some ctx, some prog =>
-      let res := match renderTemplate defaultFuel ctx prog with
+      -- generated programs need a few hundred units; unbounded macro recursion shows up as FUEL
+      let res := match renderTemplate 4000 ctx prog with
         | .ok out => s!"ok:{hexOf out}"
         | .error e => s!"err:{errName e}"
       -- the model VM on the model code (stage 2): must agree with `exec` and with the engine
       let vm := match MJ.Compile.compileTemplate prog with
         | none => "-"
-        | some code => match MJ.Vm.renderCode 1000000 ctx code with
+        | some code => match MJ.Vm.renderCode 200000 ctx code with
           | .ok out => s!"ok:{hexOf out}"
           | .error e => s!"err:{errName e}"
       -- is the program in the fragment for which the refinement theorem is proved?
